@@ -94,6 +94,33 @@ def gen(chk, tier):
         verify("extreme", b32(pt[0]), b32(pt[1]), rb(rng, 32), b32(N), b32(1))
         verify("extreme", b32(pt[0]), b32(pt[1]), rb(rng, 32), b32(1), b32(N))
         verify("extreme", b32(pt[0]), b32(pt[1]), rb(rng, 32), b32(T256 - 1), b32(T256 - 1))
+    # R chosen FIRST: x_R in the gap [n, p) (the reduction of e + x_R matters), x_R tiny, x_R = p - small;
+    # P = t^-1 (R - [s]G) makes (e, r, s) valid under P
+    def lift_from(x0, step):
+        x = x0
+        while True:
+            y = ec.lift_x(x)
+            if y is not None:
+                return (x, y)
+            x += step
+    targets = [lift_from(N, 1), lift_from(N + 1000, 1), lift_from((N + P) // 2, 1), lift_from(P - 1, -1), lift_from(P - 1000, -1),
+               lift_from(1, 1), lift_from(N - 1, -1)]
+    for R in targets:
+        for _ in range(2 if q else 10):
+            s_, t_ = rscalar(rng), rscalar(rng)
+            Ppt = ec.mul(ec.inv_n(t_), ec.add(R, ec.neg(ec.mul(s_))))
+            if Ppt is None:
+                continue
+            r_ = (t_ - s_) % N
+            if r_ == 0:
+                continue
+            e_ = (r_ - R[0]) % N
+            cls = "xR_in_gap_n_p" if R[0] >= N else "xR_special"
+            verify(cls + "_valid", b32(Ppt[0]), b32(Ppt[1]), b32(e_), b32(r_), b32(s_))
+            verify(cls + "_e_plus_1", b32(Ppt[0]), b32(Ppt[1]), b32((e_ + 1) % T256), b32(r_), b32(s_))
+            # the same relation with e not reduced (e + n still fits when e is small)
+            if e_ + N < T256:
+                verify(cls + "_e_unreduced", b32(Ppt[0]), b32(Ppt[1]), b32(e_ + N), b32(r_), b32(s_))
     # public key classes: non-canonical coordinate (x + p), off curve, zero point, (0, sqrt b)
     x = 0
     found = []
